@@ -62,10 +62,10 @@ def facets(q: bool) -> List[Tuple[str, dict, int]]:
     F = FULL
     out: List[Tuple[str, dict, int]] = []
     # ---- exhaustive small facets ------------------------------------------------------------------
-    for k in (1, 2, 64):      # owner scope x threshold x k (2 episodes)
-        out.append((f"ex_scope_k{k}", dict(F, Ns=[2], Ages=[0], Clusters=[0], Imps=[1], Vecs=Def("{1, 2, 3, 4}" if q else "{-2, 0, 1, 2, 3, 4}"),
-                                           Mentions=NOMENT, Ks=[k], TierSeqs=Def("{<<3>>}"), TopMs=[3], RecentDays=[30],
-                                           Weights=Def("{<<4, 0, 0>>}"), ResCaps=[32], SliceCaps=[NOCAP]), 1))
+    # owner scope x threshold x k (2 episodes)
+    out.append(("ex_scope", dict(F, Ns=[2], Ages=[0], Clusters=[0], Imps=[1], Vecs=Def("{1, 2, 3, 4}" if q else "{-2, 0, 1, 2, 3, 4}"),
+                                 Mentions=NOMENT, Ks=[1, 2, 64], TierSeqs=Def("{<<3>>}"), TopMs=[3], RecentDays=[30],
+                                 Weights=Def("{<<4, 0, 0>>}"), ResCaps=[32], SliceCaps=[NOCAP]), 1))
     for k in (1, 2, 64):      # tiers x dedupe x early stop (3 episodes)
         out.append((f"ex_tiers_k{k}", dict(F, Ns=[3], Owners=[1], Ages=[0, 40], Clusters=[1, 2] if q else [0, 1, 2], Imps=[1], Vecs=Def("{1, 2}"),
                                            Mentions=NOMENT, Ks=[k], Thrs=Def("{6}" if q else "{6, 12}"), TopMs=[1], RecentDays=[30],
@@ -80,9 +80,9 @@ def facets(q: bool) -> List[Tuple[str, dict, int]]:
                                                Mentions=NOMENT, Ks=[64], Thrs=Def("{-20}"), TierSeqs=Def("{<<3>>}"), TopMs=[3], RecentDays=[30],
                                                Weights=Def("(0..4) \\X (0..4) \\X {%d}" % w3), Scopes=[0], ResCaps=[32], SliceCaps=[NOCAP]), 1))
     # ---- samples of the documented scope -------------------------------------------------------------
-    se, sc, j = (300, 10, 4) if q else (1500, 10, 16)
+    se, sc, j = (300, 10, 2) if q else (1500, 10, 16)
     out.append(("s_full", dict(F, SampleEps=se, SampleCfg=sc), j))
-    out.append(("s_full34", dict(F, Ns=[3, 4], SampleEps=se // 2, SampleCfg=sc), max(1, j // 4)))
+    out.append(("s_full34", dict(F, Ns=[3, 4], SampleEps=se // 3 if q else se // 2, SampleCfg=sc), max(1, j // 4)))
     # tier walk, rich in hits: one owner, permissive thresholds, all tiers/k/ages/clusters
     out.append(("s_walk", dict(F, Ns=[4, 5], Owners=[1], Vecs=Def("{0, 1, 2, 4}"), Mentions=NOMENT, Thrs=Def("{-20, 6, 10}"),
                                Weights=Def("{<<4, 0, 0>>, <<2, 1, 1>>, <<0, 4, 0>>}"), Scopes=[0, 1], ResCaps=[32], SliceCaps=[NOCAP],
@@ -332,10 +332,16 @@ def replay_case(case) -> Tuple[List[Tuple[str, str, str]], Dict[str, int], bool]
     if ids != want and not any(f[0] in ("AtMostK", "Distinct", "OwnerScope", "Threshold", "TierRules", "RankingLaw") for f in fails):
         if sorted(ids) == sorted(want):
             fails.append(("RankingLaw", "order-differs-from-spec", f"order {ids}, documented order {want}"))
+        elif set(ids) < set(want) and set(cf["tiers"]) == {1} and all(E_[i - 1]["a"] == cf["rd"] for i in case["ids"] if f"e{i}" not in ids):
+            miss = [f"e{i}" for i in case["ids"] if f"e{i}" not in ids]
+            fails.append(("TierRules", "recency-boundary-excluded", f"retrieved {ids}, documented {want}: {miss} are exactly exact_recent_days={cf['rd']} days old (the window is inclusive)"))
+        elif set(ids) < set(want) and all(10 * s2_of(E_[i - 1]["v"]) == cf["thr"] for i in case["ids"] if f"e{i}" not in ids):
+            miss = [f"e{i}" for i in case["ids"] if f"e{i}" not in ids and 10 * s2_of(E_[i - 1]["v"]) == cf["thr"]]
+            fails.append(("Threshold", "at-threshold-excluded", f"retrieved {ids}, documented {want}: {miss} have cosine exactly sim_threshold={cf['thr'] / 20} (cos >= threshold admits them)"))
         else:
             fails.append(("TierRules", "walk-differs-from-spec", f"retrieved {ids}, documented tier walk gives {want} (tiers {[TIER[t] for t in cf['tiers']]}, k={cf['k']})"))
     counts["conforms.ids"] += 1
-    if k_used != case["k_used"]:
+    if ids == want and k_used != case["k_used"]:
         fails.append(("SliceCapOnUse", "k_used-differs-from-spec", f"k_used {k_used}, spec {case['k_used']}"))
     want_nodes = [NODE_ID[x] for x in case["residual"]]
     if ids == want and rnodes != want_nodes and not any(f[0].startswith("Residual") for f in fails):
@@ -432,6 +438,10 @@ def random_world(seed: int, i: int):
             aux["cluster_id"] = c
         eps.append({"id": f"m{j:03d}", "owner": r.choice(["A", "A", "B", "world", "C"]), "text": text, "ts": ts, "aux": aux,
                     "vec_full": _hvec(text), "tags": []})
+    for d in range(r.choice([0, 4, 12])):       # bit-identical twins under other ids: exact ties, resolved by id
+        src = r.choice(eps)
+        eps.append(dict(src, id=f"d{d:02d}" if r.random() < 0.5 else f"z{d:02d}", aux=dict(src["aux"])))
+    n = len(eps)
     tiers_all = ["exact_semantic", "cluster_semantic", "archive"]
     tiers = r.choice([tiers_all, ["exact_semantic"], ["cluster_semantic"], ["archive"], ["archive", "exact_semantic"], ["exact_semantic", "cluster_semantic"], [],
                       ["cluster_semantic", "exact_semantic", "archive"]])
@@ -563,7 +573,7 @@ def _run_jobs(run, jobs):
         name, consts, seed = job
         cfg = make_cfg(consts, invs, [], emit=False, view=None, constraint="EmitCase")
         return _tlc.run_tlc("Retrieval", cfg, run.workdir, name=name, workers=1, timeout_s=1500, defs=split_defs(consts),
-                            seed=seed, heap="1500m", jvm_opts=["-XX:ParallelGCThreads=2"])
+                            seed=seed, heap="1500m", jvm_opts=["-XX:ParallelGCThreads=2", "-XX:CICompilerCount=2"])
     with ThreadPoolExecutor(max_workers=16) as ex:
         results = list(ex.map(one, jobs))
     for (name, consts, seed), res in zip(jobs, results):
@@ -622,7 +632,7 @@ def check(run) -> None:
             for clause, kind, msg in fails:
                 run.fail(clause, _sig(clause, kind), c, msg, replay={"case": c})
         # rerank layers on the worlds that return at least two hits (plus a few others)
-        rr = [c for n_, c in enumerate(cases) if len(c["ids"]) >= 2 or n_ % 23 == 0]
+        rr = [c for n_, c in enumerate(cases) if (len(c["ids"]) >= 2 and (not q or n_ % 2 == 0)) or n_ % 23 == 0]
         for c, (fails, counts) in zip(rr, pmap(rerank_case, rr)):
             run.traces += 1
             for k, v in counts.items():
@@ -630,7 +640,7 @@ def check(run) -> None:
             if not fails:
                 run.ok("Rerank.conforms")
             for clause, kind, msg in fails:
-                run.fail(clause, _sig(clause, kind) | {"layers": True}, c, msg, replay={"rerank": c})
+                run.fail(clause, _sig(clause, kind), c, msg, replay={"rerank": c})
         del cases, outs, results
     run.exhaustive = True
     # ---- C->S random memories ------------------------------------------------------------------------
@@ -644,7 +654,7 @@ def check(run) -> None:
         if not fails:
             run.ok("Random.conforms")
         for clause, kind, msg in fails:
-            run.fail(clause, _sig(clause, kind) | {"direction": "random"}, {"seed": a[0], "i": a[1]}, msg, replay={"random": list(a)})
+            run.fail(clause, _sig(clause, kind), {"seed": a[0], "i": a[1]}, msg, replay={"random": list(a)})
     for must in ("hybrid_reordered", "quality_reordered", "RerankIsPermutation", "RankingLaw.identical_input_ties"):
         if run.clauses.get(must, 0) == 0:
             raise _tlc.TLCError(f"C11: vacuous run: counter {must} is 0")
